@@ -577,6 +577,7 @@ func c19Delay(c *Check, P string, m *MW) {
 		okA := FromParam(ParamsOfType(H, tMessagePtr)[0])(dm.Common().Args[0]) && AllOrigins(dm.Common().Args[1], ResultOfAny(fors, 0))
 		c.Report(okA, P+".O4", "DELAY-STAMPED", H, dm.Pos(), "delay.Message", "the computed delay is stamped on the consumed message")
 	}
+	c20DelayMessage(c, P+".O4")
 	// the previous delay is read from DelayedForKey
 	key, _ := c.P.ExportedConstString("components/delay", "DelayedForKey")
 	ng := 0
